@@ -12,14 +12,15 @@ from .hist import Index
 
 MAJORS = [0, 1, 2, 3, 4]
 MINORS = [0, 10, 11, 4294967295]
-API_NAMES = ["", "simdev", "other", "sïmdëv", "SimDev", "sim_dev"]
-NOISE_NAMES = [None, "simdev", "other", "", "SIMDEV", "sim_dev"]
+LONG = "n" * 63
+API_NAMES = ["", "simdev", "other", "sïmdëv", "SimDev", "sim_dev", LONG + "x"]
+NOISE_NAMES = [None, "simdev", "other", "", "SIMDEV", "sim_dev", LONG + "-2"]
 ORDERS = ["normal", "split", "reversed", "dup_hello", "one_by_one"]
 
 
 def matrix() -> list[tuple]:
     out = []
-    for major, minor, api_name, expected, login, bad_pw in itertools.product(MAJORS, MINORS, API_NAMES, [None, "simdev", "sim-dev"], [False, True], [False, True]):
+    for major, minor, api_name, expected, login, bad_pw in itertools.product(MAJORS, MINORS, API_NAMES, [None, "simdev", "sim-dev", LONG], [False, True], [False, True]):
         for nname in NOISE_NAMES:
             out.append((major, minor, api_name, nname, expected, login, bad_pw))
     return out
@@ -128,8 +129,8 @@ def handshake_oracle(ix: Index, scn: dict) -> list[Violation]:
             ok = False
             if "name" in reasons and "BadNameAPIError" in mro and err.get("received_name") in bad_names:
                 ok = True
-            if "auth" in reasons and "InvalidAuthAPIError" in mro:
-                ok = True
+            if "auth" in reasons and "InvalidAuthAPIError" in mro and len(reasons) == 1:
+                ok = True  # (with a fatal hello as well, the hello's verdict comes first on the wire and wins)
             if "version" in reasons and "BadNameAPIError" not in mro and "InvalidAuthAPIError" not in mro and ("version" in (err.get("text") or "").lower() or "Version" in str(cls)):
                 ok = True
             if empty_names and "BadNameAPIError" in mro and err.get("received_name") == "":
